@@ -17,6 +17,7 @@ RULE = (
     'covariate->observable maps, unrelated observables / columns / all-NaN rows, and a seed that interleaves the '
     'rows of the series (order inside each series kept). Non-trivial: >=2 individuals with different time grids and '
     '(different regimens or covariates or a population model). Distinct = structural projection.')
+RULE += (' ' + 'Added: an explicit output-observable map whose keys are listed in another order than the model outputs.')
 ASSUMPTIONS = [
     'oracle: the posterior assembled by hand from the generating spec (not from the frame): reference error densities, '
     'analytic outputs or closed-form solution under the individual\'s own dose events, reference population density, '
